@@ -42,6 +42,9 @@ Proof.
   destruct (tclass_eqb c c'); [destruct n; [exact H|exact I]|exact I].
 Qed.
 
+Lemma tick_find_safe f h q : okp h q -> fsafe (fun _ => True) (tick_find f h q).
+Proof. intros H. unfold tick_find. destruct (hidx q); [exact I|now apply tick_safe]. Qed.
+
 Lemma tick_insert_safe f h q : okp h q -> fsafe (fun _ => True) (tick_insert f h q).
 Proof. intros H. unfold tick_insert. destruct f as [[[] n]|]; cbn; auto. Qed.
 
@@ -152,7 +155,7 @@ Lemma f_find_safe f h q l k :
   fsafe (fun '(f1, r) => match r with Some a => In (a, a) (hidx q) /\ exists v, In (a, (k, v)) l | None => True end)
         (f_find f h q k).
 Proof.
-  intros Hw. unfold f_find. eapply fsafe_bind; [apply tick_safe; now exists l|]. intros f1 _.
+  intros Hw. unfold f_find. eapply fsafe_bind; [apply tick_find_safe; now exists l|]. intros f1 _.
   destruct Hw as (Hc & Hnd & Hall). destruct (find_w h q l k (hidx q) Hc Hall) as (r & -> & Hr). cbn. exact Hr.
 Qed.
 
@@ -351,34 +354,37 @@ Proof.
 Qed.
 
 (** ** purge and resize *)
-Lemma f_purge_loop_safe : forall fuel f h q,
+Lemma f_purge_loop_safe : forall fuel f h q acc,
   okp h q -> length (hidx q) < fuel ->
-  fsafe (fun '(f1, h1, q1) => okp h1 q1 /\ hhead q1 = hhead q /\ htail q1 = htail q) (f_purge_loop fuel f h q).
+  fsafe (fun '(f1, h1, q1, _) => okp h1 q1 /\ hhead q1 = hhead q /\ htail q1 = htail q) (f_purge_loop fuel f h q acc).
 Proof.
-  induction fuel as [|fuel IH]; intros f h q (l & Hw) Hlt; [lia|].
+  induction fuel as [|fuel IH]; intros f h q acc (l & Hw) Hlt; [lia|].
   cbn [f_purge_loop]. eapply fsafe_bind; [apply (f_remove_lru_safe f h q l Hw)|].
   intros [[[f1 h1] q1] r] (Hok & E1 & E2 & Hr). destruct r as [e|]; [|cbn; auto].
   eapply fsafe_bind; [apply tick_safe; exact Hok|]. intros f2 _.
-  eapply fsafe_weaken; [apply IH; [exact Hok|lia]|]. intros [[f3 h3] q3] (A & B & C). split; [exact A|]. split; congruence.
+  eapply fsafe_bind; [apply tick_safe; exact Hok|]. intros f2' _.
+  eapply fsafe_weaken; [apply IH; [exact Hok|lia]|]. intros [[[f3 h3] q3] a3] (A & B & C). split; [exact A|]. split; congruence.
 Qed.
 
 Theorem f_purge_safe f h q :
-  okp h q -> fsafe (fun '(f1, h1, q1) => okp h1 q1 /\ hhead q1 = hhead q /\ htail q1 = htail q) (f_purge f h q).
+  okp h q -> fsafe (fun '(f1, h1, q1, _) => okp h1 q1 /\ hhead q1 = hhead q /\ htail q1 = htail q) (f_purge f h q).
 Proof. intros H. unfold f_purge. apply f_purge_loop_safe; [exact H|lia]. Qed.
 
-Lemma f_resize_loop_safe c : forall fuel f h q,
+Lemma f_resize_loop_safe c : forall fuel f h q acc,
   okp h q ->
-  fsafe (fun '(f1, h1, q1) => okp h1 q1 /\ hhead q1 = hhead q /\ htail q1 = htail q) (f_resize_loop fuel f h q c).
+  fsafe (fun '(f1, h1, q1, _) => okp h1 q1 /\ hhead q1 = hhead q /\ htail q1 = htail q) (f_resize_loop fuel f h q c acc).
 Proof.
-  induction fuel as [|fuel IH]; intros f h q Hok; [cbn; auto|].
+  induction fuel as [|fuel IH]; intros f h q acc Hok; [cbn; auto|].
   cbn [f_resize_loop]. destruct (Nat.ltb c (length (hidx q))); [|cbn; auto].
   destruct Hok as (l & Hw).
   eapply fsafe_bind; [apply (f_remove_lru_safe f h q l Hw)|].
   intros [[[f1 h1] q1] r] (Hok & E1 & E2 & Hr).
   eapply fsafe_bind with (P := fun _ => True).
   { destruct r; [apply tick_safe; exact Hok|exact I]. }
-  intros f2 _. eapply fsafe_weaken; [apply IH; exact Hok|].
-  intros [[f3 h3] q3] (A & B & C). split; [exact A|]. split; congruence.
+  intros f2 _. eapply fsafe_bind with (P := fun _ => True).
+  { destruct r; [apply tick_safe; exact Hok|exact I]. }
+  intros f2' _. eapply fsafe_weaken; [apply IH; exact Hok|].
+  intros [[[f3 h3] q3] a3] (A & B & C). split; [exact A|]. split; congruence.
 Qed.
 
 Lemma okp_descr h q q' : hhead q' = hhead q -> htail q' = htail q -> hidx q' = hidx q -> okp h q -> okp h q'.
@@ -387,11 +393,12 @@ Proof.
 Qed.
 
 Theorem f_resize_safe f h q c :
-  okp h q -> fsafe (fun '(f1, h1, q1) => okp h1 q1) (f_resize f h q c).
+  okp h q -> fsafe (fun '(f1, h1, q1, _) => okp h1 q1) (f_resize f h q c).
 Proof.
   intros Hok. unfold f_resize. destruct (Nat.eqb c (hcap q)); [exact Hok|].
   eapply fsafe_bind; [apply f_resize_loop_safe; exact Hok|].
-  intros [[f1 h1] q1] (A & _). cbn. eapply okp_descr; [| | |exact A]; reflexivity.
+  intros [[[f1 h1] q1] a1] (A & _). eapply fsafe_bind; [apply tick_insert_safe; exact A|]. intros f2 _.
+  cbn. eapply okp_descr; [| | |exact A]; reflexivity.
 Qed.
 
 (** ** the operations that call no user code *)
@@ -446,10 +453,13 @@ Qed.
 Theorem f_peek_mut_or_put_safe f h q l k v w :
   wfw h q l -> fsafe (fun '(f1, h1, q1, a, b) => okp h1 q1) (f_peek_mut_or_put f h q k v w).
 Proof.
-  intros Hw. unfold f_peek_mut_or_put. eapply fsafe_bind; [apply (f_peek_mut_safe f h q l k w Hw)|].
-  intros [[f1 h1] r] Hok. destruct r as [x|].
-  - eapply fsafe_bind; [apply tick_safe; exact Hok|]. intros f2 _. exact Hok.
-  - destruct Hok as (l1 & Hw1). eapply fsafe_bind; [apply (f_put_safe f1 h1 q l1 k v Hw1)|].
+  intros Hw. unfold f_peek_mut_or_put. eapply fsafe_bind; [apply (f_find_safe f h q l k Hw)|].
+  intros [f1 r] Hr. destruct r as [a|].
+  - destruct Hr as [Hi (v0 & Hin)].
+    eapply fsafe_bind; [apply tick_safe; eexists; exact Hw|]. intros f2 _.
+    eapply fsafe_bind; [apply tick_safe; eexists; exact Hw|]. intros f3 _.
+    destruct (h_write_w h q l a k v0 w Hw Hin) as (h1 & e & -> & Hok). cbn. exact Hok.
+  - eapply fsafe_bind; [apply (f_put_safe f1 h q l k v Hw)|].
     intros [[[f2 h2] q2] pr] Hok2. exact Hok2.
 Qed.
 
@@ -458,7 +468,8 @@ Theorem f_contains_or_put_safe f h q l k v :
 Proof.
   intros Hw. unfold f_contains_or_put. eapply fsafe_bind; [apply (f_contains_safe f h q l k Hw)|].
   intros [f1 b] _. destruct b.
-  - eapply fsafe_bind; [apply tick_safe; eexists; exact Hw|]. intros f2 _. cbn. eexists; exact Hw.
+  - eapply fsafe_bind; [apply tick_safe; eexists; exact Hw|]. intros f2 _.
+    eapply fsafe_bind; [apply tick_safe; eexists; exact Hw|]. intros f3 _. cbn. eexists; exact Hw.
   - eapply fsafe_bind; [apply (f_put_safe f1 h q l k v Hw)|]. intros [[[f2 h2] q2] pr] Hok2. exact Hok2.
 Qed.
 
@@ -472,8 +483,8 @@ Proof.
   - eapply fsafe_bind; [apply (f_peek_safe f h q l k Hw)|]. intros [f1 r] _. cbn. eexists; exact Hw.
   - eapply fsafe_bind; [apply (f_remove_safe f h q l k Hw)|]. intros [[[f1 h1] q1] r] (H & _). exact H.
   - eapply fsafe_bind; [apply (f_remove_lru_safe f h q l Hw)|]. intros [[[f1 h1] q1] r] (H & _). exact H.
-  - eapply fsafe_bind; [apply (f_purge_safe f h q); eexists; exact Hw|]. intros [[f1 h1] q1] (H & _). exact H.
-  - eapply fsafe_bind; [apply (f_resize_safe f h q c); eexists; exact Hw|]. intros [[f1 h1] q1] H. exact H.
+  - eapply fsafe_bind; [apply (f_purge_safe f h q); eexists; exact Hw|]. intros [[[f1 h1] q1] a1] (H & _). exact H.
+  - eapply fsafe_bind; [apply (f_resize_safe f h q c); eexists; exact Hw|]. intros [[[f1 h1] q1] a1] H. exact H.
   - eapply fsafe_bind; [apply (f_peek_mut_safe f h q l k w Hw)|]. intros [[f1 h1] r] H. exact H.
   - eapply fsafe_bind; [apply (f_contains_safe f h q l k Hw)|]. intros [f1 b] _. cbn. eexists; exact Hw.
   - destruct (h_get_lru_w h q l w Hw) as (h1 & r & -> & Hok). cbn. exact Hok.
@@ -485,6 +496,9 @@ Qed.
 
 (** ** Drop: no memory error whatever the state and the fuse; a panic while dropping leaks the rest *)
 Definition noerr {A} (r : fres A) : Prop := match r with FErr _ => False | _ => True end.
+
+Lemma tick_noerr c f h q : match tick c f h q with FErr _ => False | _ => True end.
+Proof. unfold tick. destruct f as [[c' m]|]; [|exact I]. destruct (tclass_eqb c c'); [destruct m|]; exact I. Qed.
 
 Lemma f_drop_nodes_noerr (i : list (addr * addr)) : forall f h q,
   NoDup (map snd i) ->
@@ -499,18 +513,17 @@ Proof.
   cbn [map snd] in Hnd, Hall. apply NoDup_cons_iff in Hnd. destruct Hnd as [Hnotin Hnd].
   destruct (Hall na (or_introl eq_refl)) as (k & v & p & n & E).
   cbn [f_drop_nodes]. unfold take_kv, hfree. rewrite (hread_node _ _ _ _ _ _ E). cbn [hbind lift fbind]. rewrite E.
-  cbn [lift fbind]. destruct (tick TDrop f (hupd h na Free) q) as [f1|h' q'|e] eqn:Et; cbn [fbind].
-  - specialize (IH f1 (hupd h na Free) q Hnd).
-    destruct (f_drop_nodes f1 (hupd h na Free) q rest) as [[f2 h2]|h' q'|e].
-    + intros x Hx. cbn [map snd In] in Hx. rewrite IH.
-      * apply cells_hupd_other. intros ->. tauto.
-      * intros a Ha. rewrite cells_hupd_other by (intros ->; contradiction). apply Hall. now right.
-      * tauto.
-    + exact I.
-    + apply IH. intros a Ha. rewrite cells_hupd_other by (intros ->; contradiction). apply Hall. now right.
-  - exact I.
-  - unfold tick in Et. destruct f as [[c' m]|]; [|discriminate].
-    destruct (tclass_eqb TDrop c'); [destruct m; discriminate|discriminate].
+  cbn [lift fbind].
+  pose proof (tick_noerr TDropK f (hupd h na Free) q) as T1.
+  destruct (tick TDropK f (hupd h na Free) q) as [f1|h' q'|e]; cbn [fbind]; [|exact I|exact T1].
+  pose proof (tick_noerr TDropV f1 (hupd h na Free) q) as T2.
+  destruct (tick TDropV f1 (hupd h na Free) q) as [f2|h' q'|e]; cbn [fbind]; [|exact I|exact T2].
+  specialize (IH f2 (hupd h na Free) q Hnd).
+  assert (Hall' : forall a, In a (map snd rest) -> exists k v p n, cells (hupd h na Free) a = Node (Some k) (Some v) p n).
+  { intros a Ha. rewrite cells_hupd_other by (intros ->; contradiction). apply Hall. now right. }
+  specialize (IH Hall').
+  destruct (f_drop_nodes f2 (hupd h na Free) q rest) as [[f3 h3]|h' q'|e]; [|exact I|exact IH].
+  intros x Hx. cbn [map snd In] in Hx. rewrite IH by tauto. apply cells_hupd_other. intros ->. tauto.
 Qed.
 
 Theorem f_drop_noerr f h q : okp h q -> noerr (f_drop f h q).
@@ -569,9 +582,12 @@ Ltac hstepx :=
 
 Ltac fin H := inversion H; subst; reflexivity.
 
+Lemma tick_find_none h q : tick_find None h q = FOk None.
+Proof. unfold tick_find. now destruct (hidx q). Qed.
+
 Theorem f_put_erase h q k v h' q' r : h_put h q k v = HOk (h', q', r) -> f_put None h q k v = FOk (None, h', q', r).
 Proof.
-  unfold h_put, f_put, f_find. cbn [tick fbind]. intros H.
+  unfold h_put, f_put, f_find. rewrite tick_find_none. cbn [tick fbind]. intros H.
   destruct (idx_find h (hidx q) k) as [o|e] eqn:Ef; cbn [hbind] in H; [|discriminate].
   cbn [lift fbind]. destruct o as [n|].
   - destruct (h_update h q n v) as [[h1 old]|e]; cbn [hbind] in H; [|discriminate]. cbn [lift fbind tick]. fin H.
@@ -600,7 +616,7 @@ Qed.
 
 Theorem f_get_mut_erase h q k w h' r : h_get_mut h q k w = HOk (h', r) -> f_get_mut None h q k w = FOk (None, h', r).
 Proof.
-  unfold h_get_mut, f_get_mut, f_find. cbn [tick fbind]. intros H.
+  unfold h_get_mut, f_get_mut, f_find. rewrite tick_find_none. cbn [tick fbind]. intros H.
   destruct (idx_find h (hidx q) k) as [o|e]; cbn [hbind] in H; [|discriminate]. cbn [lift fbind].
   destruct o as [n|]; [|fin H].
   destruct (detach h n) as [h1|e]; cbn [hbind] in H; [|discriminate]. cbn [lift fbind].
